@@ -91,6 +91,39 @@ def G_of(state):
     return Uact if state == "ket" else Uconj
 
 
+def mark_case(cx, case):
+    """make the case name visible in solver models (a constant named 'case|<name>'), so that replay(model) can
+    rebuild the concrete combination"""
+    cx.assume(z3.Int("case|" + case.name) == 0)
+
+
+def case_of_model(model):
+    for k in model or {}:
+        if k.startswith("case|"):
+            return dict(kv.split("=", 1) for kv in k[5:].split(","))
+    return {}
+
+
+def _native_objects(d, state, hk, seed=18):
+    import numpy as np
+    import scipy.sparse.linalg as spla
+
+    import quimb as qu
+
+    rng = np.random.default_rng(seed)
+    A = rng.normal(size=(d, d)) + 1j * rng.normal(size=(d, d))
+    Hn = (A + A.conj().T) / 2
+    psi = rng.normal(size=(d, 1)) + 1j * rng.normal(size=(d, 1))
+    psi /= np.linalg.norm(psi)
+    rho = 0.6 * psi @ psi.conj().T + 0.4 * np.eye(d) / d
+    evals, evecs = np.linalg.eigh(Hn)
+    ham = {"dense": lambda: qu.qu(Hn), "sparse": lambda: qu.qu(Hn, sparse=True),
+           "tuple": lambda: (evals.copy(), qu.qu(evecs)), "list": lambda: [evals.copy(), qu.qu(evecs)],
+           "linop": lambda: spla.aslinearoperator(Hn), "timedep": lambda: (lambda t: qu.qu(Hn))}[hk]()
+    p0 = qu.qu(psi) if state == "ket" else qu.qu(rho)
+    return Hn, (psi if state == "ket" else rho), p0, ham
+
+
 class EvoContract(Contract):
     """shared modelling of quimb/evo.py: abstract values, leaf functions, method dispatch"""
 
@@ -794,7 +827,34 @@ class SetupSolvedHam(EvoContract):
         ham = self.ham(cx, case.hk, d=d)
         cx.ghost["ham0"] = ham
         cx.ghost["H"] = None
+        mark_case(cx, case)
         return dict(self=self.evo(cx, _ham=ham, _isdop=case.state == "dop", _p0=p0, _method=case.m))
+
+    def replay(self, model):
+        """native replay: the real constructor on a d x d Hamiltonian of the model's dimension; the stored system
+        must be the eigendecomposition (compared with numpy.linalg.eigh through the evolution it produces)"""
+        import numpy as np
+        import scipy.linalg as sla
+
+        from quimb.evo import Evolution
+
+        c = case_of_model(model)
+        d = int(model.get("d", 2))
+        state, hk = c.get("state", "ket"), c.get("ham", "dense")
+        Hn, s0, p0, ham = _native_objects(d, state, hk)
+        call = f"Evolution(<{state} d={d}>, <{hk} {d}x{d}>, method='solve', t0=0.3).update_to(0.75)"
+        try:
+            evo = Evolution(p0, ham, method="solve", t0=0.3)
+            pair = isinstance(evo._ham, tuple) and np.ndim(evo._ham[0]) == 1 and np.shape(evo._ham[1]) == (d, d)
+            evo.update_to(0.75)
+            U = sla.expm(-1j * Hn * 0.45)
+            ref = U @ s0 if state == "ket" else U @ s0 @ U.conj().T
+            err = float(np.abs(np.asarray(evo.pt) - ref).max())
+            return dict(call=call, observed=dict(stored_system_is_pair=bool(pair), max_abs_error_vs_expm=err),
+                        reproduced=(not pair) or err > 1e-9)
+        except Exception as e:
+            return dict(call=call, observed=f"{type(e).__name__}: {str(e)[:200]}",
+                        note="the 2-row matrix was unpacked as (evals, evecs)", reproduced=True)
 
     @staticmethod
     def spec(cx, f, ham0):
@@ -1064,6 +1124,7 @@ class Init(EvoContract):
         cx.ghost["ham0"] = ham
         stop = None if case.stop == "none" else Q("fn", cx.Val("int_stop"))
         compute = Q("fn", cx.Val("compute"))
+        mark_case(cx, case)
         return dict(self=self.evo(cx), p0=p0, ham=ham, t0=cx.Real("t0"), compute=compute, int_stop=stop,
                     method=case.m if case.m != "bogus" else "bogus", int_small_step=False, expm_backend="AUTO",
                     expm_opts=None, progbar=False)
@@ -1075,6 +1136,43 @@ class Init(EvoContract):
             inner = cx.env["noncacheing_ham"]
             return Q("timedep", inner.z, **inner.info)
         return super().call(cx, name, args, kwargs, node)
+
+    def replay(self, model):
+        """native replay of a failed support-table obligation: the real constructor on the combination named by the
+        model's case marker (d = 3); reproduced when it is accepted although the installed method does not cover it
+        (checked against scipy.linalg.expm), or when an accepted int_stop is never consulted"""
+        import numpy as np
+        import scipy.linalg as sla
+
+        from quimb.evo import Evolution
+
+        c = case_of_model(model)
+        if not c:
+            return dict(reproduced=False, note="no case marker in the model")
+        d = 3
+        Hn, s0, p0, ham = _native_objects(d, c["state"], c["ham"])
+        seen = []
+        kw = {}
+        if c.get("int_stop") == "fn":
+            kw["int_stop"] = lambda t, p: seen.append(t) or 0
+        call = f"Evolution(<{c['state']} d=3>, <{c['ham']}>, method={c['method']!r}, t0=0.3" + \
+            (", int_stop=<fn>" if kw else "") + ").update_to(0.75)"
+        try:
+            evo = Evolution(p0, ham, method=c["method"], t0=0.3, **kw)
+        except Exception as e:
+            return dict(call=call, observed=f"raises {type(e).__name__}: {str(e)[:120]}", reproduced=False)
+        um = evo._update_method.__name__
+        cov = covers(um, c["state"], "pair" if c["ham"] in ("tuple", "list") else c["ham"])
+        evo.update_to(0.75)
+        U = sla.expm(-1j * Hn * 0.45)
+        ref = U @ s0 if c["state"] == "ket" else U @ s0 @ U.conj().T
+        got = np.asarray(evo.pt).reshape(ref.shape)
+        err = float(np.abs(got - ref).max())
+        one_sided = float(np.abs(got - U @ s0).max())
+        ignored = bool(kw) and not seen
+        return dict(call=call, observed=dict(installed=um, own_precondition_covers=cov, max_abs_error_vs_expm=err,
+                                             error_vs_one_sided_product=one_sided, int_stop_calls=len(seen)),
+                    reproduced=bool((not cov and err > 1e-9) or ignored))
 
     def ensures_raise(self, a, exc, cx, case):
         return {"raises-only-for-undocumented-combination":
